@@ -1,9 +1,9 @@
 //! Engine `ctrans` (C35): replays behaviours of ClientTransport.tla on the real client transport objects
 //! (`TransportState`, `SendBuffer`, `Request::send` / `send_no_response`) without a socket.
 //!
-//! case = {"case": id, "cfg": {QueueCap, MaxInflight, MaxPending}, "steps": [{ev, r, cb, h, id, kind, ...}, ...]}
+//! case = {"case": id, "cfg": {QueueCap, MaxInflight, MaxPending}, "steps": [{ev, r, cb, cls, h, id, kind, ...}, ...]}
 //! One observation record per step: the step's arguments plus what the real code did
-//! (took/id for Poll, hit for Expire/Chunk, closed, out = results of the request futures that became ready, st).
+//! (took/id/armed for Poll, hit for Expire/Chunk, closed, out = results of the request futures that became ready, st).
 use crate::util::*;
 use crate::Obs;
 use opcua::client::verif::{VerifRequestFuture, VerifTransport};
@@ -126,14 +126,16 @@ impl World {
 
 /// returns the fields of the observation that come from the real code
 fn step(w: &mut World, s: &Value) -> Value {
-    let mut o = json!({"took": 0, "id": geti(s, "id"), "hit": false, "closed": "none", "h": geti(s, "h")});
+    let mut o = json!({"took": 0, "id": geti(s, "id"), "hit": false, "closed": "none", "h": geti(s, "h"), "armed": 0});
     match gets(s, "ev") {
         "Submit" => {
             let r = geti(s, "r");
             let mut hdr = RequestHeader::dummy();
             hdr.request_handle = geti(s, "h") as u32;
             let req = ReadRequest { request_header: hdr, max_age: 0.0, timestamps_to_return: TimestampsToReturn::Neither, nodes_to_read: None };
-            let f = w.t.request(req.into(), Duration::from_secs(3600), getb(s, "cb"));
+            // timeout classes: far longer than a case lasts, and far enough apart that every "short" deadline is before every "long" one
+            let timeout = if gets(s, "cls") == "short" { Duration::from_secs(1000) } else { Duration::from_secs(3000) };
+            let f = w.t.request(req.into(), timeout, getb(s, "cb"));
             w.futs.insert(r, f);
             w.order.push(r);
         }
@@ -149,6 +151,15 @@ fn step(w: &mut World, s: &Value) -> Value {
                 o["id"] = json!(id as i64 - 1000);
             } else {
                 o["id"] = json!(0);
+            }
+            // what the transport's timer is armed for now: the real next_timeout, as wait_for_outgoing_message calls it
+            // before it sleeps, matched against the deadlines of the pending requests
+            if let Some(t) = w.t.next_timeout() {
+                if let Some((id, _)) = w.t.deadlines().iter().find(|(_, d)| *d == t) {
+                    o["armed"] = json!(*id as i64 - 1000);
+                } else {
+                    o["armed"] = json!(-1);
+                }
             }
         }
         "Expire" => {
